@@ -96,7 +96,7 @@ def _execute(view, cfg, ctx, sched):
 
     if cfg['kind'] == 'plan' and g < 1.0:
         ctx.probe('plan_option')
-        base_states = [sid[s] for s in mdp.state_list]      # reachable from the base initial states
+        base_states = sorted(sid[s] for s in mdp.state_list)      # reachable from the base initial states (sorted: the inferred list order may depend on the hash seed)
         popt = PlanToSubgoalOption(mdp=mdp, initial_states=[sk[s] for s in base_states if s not in term] or [sk[base_states[0]]],
                                    subgoals=[sk[s] for s in sorted(term)], planner=ValueIteration(max_residual=1e-10),
                                    include_mdp_absorbing_states=cfg['include_abs'], name=cfg['optname'],
